@@ -1,3 +1,387 @@
 import SigModel.Model.QTable
+/-!
+Helper lemmas for C17 (running / waiting query tables).
+All lemmas are about arbitrary states satisfying an invariant; the property file instantiates them
+at the initial state.
+-/
 namespace SigModel.Lemmas.C17
+open SigModel.QTable
+
+/-! ### assoc-list facts -/
+
+theorem lookup_erase_self (q : Nat) (m : List (Nat × RQ)) : lookup q (erase q m) = none := by
+  induction m with
+  | nil => rfl
+  | cons a r ih =>
+    obtain ⟨k, v⟩ := a
+    simp only [erase]
+    split
+    · exact ih
+    · simp [lookup, *]
+
+theorem lookup_put_self (q : Nat) (v : RQ) (m : List (Nat × RQ)) : lookup q (put q v m) = some v := by
+  simp [put, lookup]
+
+theorem mem_keys_erase {q k : Nat} {m : List (Nat × RQ)} (h : k ∈ (erase q m).map Prod.fst) :
+    k ∈ m.map Prod.fst ∧ k ≠ q := by
+  induction m with
+  | nil => simp [erase] at h
+  | cons a r ih =>
+    obtain ⟨k', v⟩ := a
+    simp only [erase] at h
+    split at h
+    · have := ih h
+      simp [this]
+    · rename_i hne
+      simp only [List.map_cons, List.mem_cons] at h ⊢
+      rcases h with h | h
+      · subst h; exact ⟨Or.inl rfl, hne⟩
+      · have := ih h; exact ⟨Or.inr this.1, this.2⟩
+
+theorem nodup_keys_erase (q : Nat) (m : List (Nat × RQ)) (h : (m.map Prod.fst).Nodup) :
+    ((erase q m).map Prod.fst).Nodup := by
+  induction m with
+  | nil => simp [erase]
+  | cons a r ih =>
+    obtain ⟨k, v⟩ := a
+    simp only [List.map_cons, List.nodup_cons] at h
+    simp only [erase]
+    split
+    · exact ih h.2
+    · simp only [List.map_cons, List.nodup_cons]
+      exact ⟨fun hk => h.1 (mem_keys_erase hk).1, ih h.2⟩
+
+theorem nodup_keys_put (q : Nat) (v : RQ) (m : List (Nat × RQ)) (h : (m.map Prod.fst).Nodup) :
+    ((put q v m).map Prod.fst).Nodup := by
+  simp only [put, List.map_cons, List.nodup_cons]
+  exact ⟨fun hk => (mem_keys_erase hk).2 rfl, nodup_keys_erase q m h⟩
+
+theorem length_erase_le (q : Nat) (m : List (Nat × RQ)) : (erase q m).length ≤ m.length := by
+  induction m with
+  | nil => simp [erase]
+  | cons a r ih =>
+    obtain ⟨k, v⟩ := a
+    simp only [erase]
+    split
+    · simp only [List.length_cons]; omega
+    · simp only [List.length_cons]; omega
+
+theorem length_put_le (q : Nat) (v : RQ) (m : List (Nat × RQ)) : (put q v m).length ≤ m.length + 1 := by
+  have := length_erase_le q m
+  simp only [put, List.length_cons]; omega
+
+/-! ### waiting-queue facts -/
+
+theorem length_removeFirstWaiting_le (q : Nat) (l : List RQ) :
+    (removeFirstWaiting q l).length ≤ l.length := by
+  induction l with
+  | nil => simp [removeFirstWaiting]
+  | cons a r ih =>
+    simp only [removeFirstWaiting]
+    split
+    · simp only [List.length_cons]; omega
+    · simp only [List.length_cons]; omega
+
+theorem mem_of_mem_removeFirstWaiting {q : Nat} {l : List RQ} {x : RQ}
+    (h : x ∈ removeFirstWaiting q l) : x ∈ l := by
+  induction l with
+  | nil => simp [removeFirstWaiting] at h
+  | cons a r ih =>
+    simp only [removeFirstWaiting] at h
+    split at h
+    · exact List.mem_cons_of_mem _ h
+    · simp only [List.mem_cons] at h ⊢
+      rcases h with h | h
+      · exact Or.inl h
+      · exact Or.inr (ih h)
+
+/-- if `q` is queued at most once, removing its first occurrence leaves none -/
+theorem removeFirstWaiting_clears (q : Nat) (l : List RQ)
+    (h : (l.filter (fun r => r.qid == q)).length ≤ 1) :
+    ∀ r ∈ removeFirstWaiting q l, r.qid ≠ q := by
+  induction l with
+  | nil => intro r hr; simp [removeFirstWaiting] at hr
+  | cons a t ih =>
+    intro r hr
+    simp only [removeFirstWaiting] at hr
+    split at hr
+    · rename_i ha
+      -- a.qid = q, so the tail has no q
+      have hf : (t.filter (fun r => r.qid == q)).length = 0 := by
+        simp only [List.filter_cons, ha, beq_self_eq_true, if_true, List.length_cons] at h
+        omega
+      have hnil : t.filter (fun r => r.qid == q) = [] := List.eq_nil_of_length_eq_zero hf
+      intro hq
+      have : r ∈ t.filter (fun r => r.qid == q) := by
+        simp [List.mem_filter, hr, hq]
+      rw [hnil] at this
+      simp at this
+    · rename_i ha
+      have h' : (t.filter (fun r => r.qid == q)).length ≤ 1 := by
+        have hb : (a.qid == q) = false := by simp [ha]
+        simpa only [List.filter_cons, hb, Bool.false_eq_true, if_false] using h
+      simp only [List.mem_cons] at hr
+      rcases hr with hr | hr
+      · subst hr; exact ha
+      · exact ih h' r hr
+
+theorem find?_none_no_qid (q : Nat) (l : List RQ)
+    (h : l.find? (fun r => r.qid == q) = none) : ∀ r ∈ l, r.qid ≠ q := by
+  intro r hr hq
+  have := List.find?_eq_none.mp h r hr
+  simp [hq] at this
+
+/-! ### `send` / `runQuery` -/
+
+theorem send_cancelled (r : RQ) (msg : Nat) : (send r msg).1.cancelled = r.cancelled := by
+  unfold send; split <;> rfl
+
+theorem send_not_blocked (r : RQ) (msg : Nat) (h : r.chanLen < chanCap) : (send r msg).2 = false := by
+  unfold send; simp [h]
+
+theorem send_chanLen (r : RQ) (msg : Nat) (h : r.chanLen < chanCap) :
+    (send r msg).1.chanLen = r.chanLen + 1 := by
+  unfold send; simp [h]
+
+/-- `runQuery` without the pattern-matching lets -/
+theorem runQuery_eq (s : St) (r : RQ) :
+    runQuery s r =
+      if r.cancelled then s
+      else { s with running := put r.qid (send (send r 1).1 2).1 s.running,
+                    blocked := s.blocked || (send r 1).2 || (send (send r 1).1 2).2 } := by
+  unfold runQuery; split <;> rfl
+
+theorem runQuery_cancelled (s : St) (r : RQ) (h : r.cancelled = true) : runQuery s r = s := by
+  simp [runQuery_eq, h]
+
+theorem runQuery_waiting (s : St) (r : RQ) : (runQuery s r).waiting = s.waiting := by
+  rw [runQuery_eq]; split <;> rfl
+
+theorem runQuery_maxRunning (s : St) (r : RQ) : (runQuery s r).maxRunning = s.maxRunning := by
+  rw [runQuery_eq]; split <;> rfl
+
+theorem runQuery_running_length (s : St) (r : RQ) :
+    (runQuery s r).running.length ≤ s.running.length + 1 := by
+  rw [runQuery_eq]; split
+  · omega
+  · exact length_put_le _ _ _
+
+theorem runQuery_nodup (s : St) (r : RQ) (h : (s.running.map Prod.fst).Nodup) :
+    ((runQuery s r).running.map Prod.fst).Nodup := by
+  rw [runQuery_eq]; split
+  · exact h
+  · exact nodup_keys_put _ _ _ h
+
+/-- an object whose channel has room for two messages is admitted without blocking -/
+theorem runQuery_blocked (s : St) (r : RQ) (hb : s.blocked = false) (hr : r.chanLen + 2 ≤ chanCap) :
+    (runQuery s r).blocked = false := by
+  rw [runQuery_eq]; split
+  · exact hb
+  · have h1 : (send r 1).2 = false := send_not_blocked r 1 (by omega)
+    have h2 : (send (send r 1).1 2).2 = false := by
+      apply send_not_blocked
+      rw [send_chanLen r 1 (by omega)]; omega
+    simp [hb, h1, h2]
+
+/-! ### lifting step invariants over `run` -/
+
+theorem run_inv (P : St → Prop) (hstep : ∀ s op, P s → P (step s op).1) :
+    ∀ (ops : List Op) (s : St), P s → P (run s ops) := by
+  intro ops
+  induction ops with
+  | nil => intro s h; exact h
+  | cons op ops ih => intro s h; exact ih _ (hstep s op h)
+
+theorem run_inv_of (P : St → Prop) (Q : Op → Prop)
+    (hstep : ∀ s op, Q op → P s → P (step s op).1) :
+    ∀ (ops : List Op) (s : St), (∀ op ∈ ops, Q op) → P s → P (run s ops) := by
+  intro ops
+  induction ops with
+  | nil => intro s _ h; exact h
+  | cons op ops ih =>
+    intro s hq h
+    exact ih _ (fun o ho => hq o (List.mem_cons_of_mem _ ho))
+      (hstep s op (hq op (List.mem_cons_self ..)) h)
+
+/-! ### step invariants -/
+
+/-- C17.1: the waiting queue stays within `maxWaiting` -/
+theorem step_waiting_bounded (s : St) (op : Op) (h : s.waiting.length ≤ maxWaiting) :
+    (step s op).1.waiting.length ≤ maxWaiting := by
+  cases op with
+  | start q force =>
+    simp only [step]
+    split
+    · exact h
+    · split
+      · rw [runQuery_waiting]; exact h
+      · split
+        · exact h
+        · rename_i hlt
+          simp only [List.length_append, List.length_cons, List.length_nil]
+          simp only [ge_iff_le, Nat.not_le] at hlt
+          omega
+  | pull =>
+    simp only [step]
+    split
+    · split
+      · exact h
+      · rename_i r rs heq
+        rw [runQuery_waiting]
+        rw [heq] at h
+        simp only [List.length_cons] at h
+        show rs.length ≤ maxWaiting
+        omega
+    · exact h
+  | cancel q =>
+    have hle := length_removeFirstWaiting_le q s.waiting
+    simp only [step]
+    split
+    · split
+      · exact h
+      · show (removeFirstWaiting q s.waiting).length ≤ maxWaiting
+        omega
+    · show (removeFirstWaiting q s.waiting).length ≤ maxWaiting
+      omega
+  | delete q =>
+    simp only [step]
+    split <;> exact h
+  | drain q =>
+    simp only [step]
+    split <;> exact h
+
+/-- the running table keeps at most one entry per qid -/
+theorem step_nodup (s : St) (op : Op) (h : (s.running.map Prod.fst).Nodup) :
+    ((step s op).1.running.map Prod.fst).Nodup := by
+  cases op with
+  | start q force =>
+    simp only [step]
+    split
+    · exact h
+    · split
+      · exact runQuery_nodup _ _ h
+      · split <;> exact h
+  | pull =>
+    simp only [step]
+    split
+    · split
+      · exact h
+      · exact runQuery_nodup _ _ h
+    · exact h
+  | cancel q =>
+    simp only [step]
+    split
+    · split <;> exact h
+    · exact nodup_keys_put _ _ _ h
+  | delete q =>
+    simp only [step]
+    split
+    · exact h
+    · exact nodup_keys_erase _ _ h
+  | drain q =>
+    simp only [step]
+    split
+    · exact h
+    · exact nodup_keys_put _ _ _ h
+
+/-- invariant for C17.5: nothing blocked so far and every queued object has an empty channel -/
+def NoBlock (s : St) : Prop := s.blocked = false ∧ ∀ r ∈ s.waiting, r.chanLen = 0
+
+def NotCancel (op : Op) : Prop := ∀ q, op ≠ Op.cancel q
+
+theorem step_noBlock (s : St) (op : Op) (hop : NotCancel op) (h : NoBlock s) :
+    NoBlock (step s op).1 := by
+  obtain ⟨hb, hw⟩ := h
+  cases op with
+  | start q force =>
+    simp only [step]
+    split
+    · exact ⟨hb, hw⟩
+    · split
+      · refine ⟨runQuery_blocked _ _ hb (by simp [chanCap]), ?_⟩
+        rw [runQuery_waiting]; exact hw
+      · split
+        · exact ⟨hb, hw⟩
+        · refine ⟨hb, ?_⟩
+          intro r hr
+          simp only [List.mem_append, List.mem_singleton] at hr
+          rcases hr with hr | hr
+          · exact hw r hr
+          · subst hr; rfl
+  | pull =>
+    simp only [step]
+    split
+    · split
+      · exact ⟨hb, hw⟩
+      · rename_i r rs heq
+        have hr0 : r.chanLen = 0 := hw r (by rw [heq]; exact List.mem_cons_self ..)
+        refine ⟨runQuery_blocked _ _ hb (by rw [hr0]; simp [chanCap]), ?_⟩
+        rw [runQuery_waiting]
+        intro x hx
+        exact hw x (by rw [heq]; exact List.mem_cons_of_mem _ hx)
+    · exact ⟨hb, hw⟩
+  | cancel q => exact absurd rfl (hop q)
+  | delete q =>
+    simp only [step]
+    split <;> exact ⟨hb, hw⟩
+  | drain q =>
+    simp only [step]
+    split <;> exact ⟨hb, hw⟩
+
+/-! ### single-step facts -/
+
+theorem step_pull_running_length (s : St) (h : s.running.length ≤ s.maxRunning) :
+    (step s Op.pull).1.running.length ≤ s.maxRunning := by
+  simp only [step]
+  split
+  · rename_i hlt
+    split
+    · exact h
+    · rename_i r rs _
+      have := runQuery_running_length { s with waiting := rs } r
+      show (runQuery { s with waiting := rs } r).running.length ≤ s.maxRunning
+      simp only at this
+      omega
+  · exact h
+
+theorem step_delete_lookup (s : St) (q : Nat) :
+    lookup q (step s (Op.delete q)).1.running = none := by
+  simp only [step]
+  split
+  · assumption
+  · exact lookup_erase_self q s.running
+
+theorem step_start_blocked (s : St) (q : Nat) (force : Bool) (h : s.blocked = false) :
+    (step s (Op.start q force)).1.blocked = false := by
+  simp only [step]
+  split
+  · exact h
+  · split
+    · exact runQuery_blocked _ _ h (by simp [chanCap])
+    · split <;> exact h
+
+theorem step_cancel_effective (s : St) (q : Nat)
+    (huniq : (s.waiting.filter (fun r => r.qid == q)).length ≤ 1) :
+    (∀ r ∈ (step s (Op.cancel q)).1.waiting, r.qid ≠ q) ∧
+    (∀ r, lookup q (step s (Op.cancel q)).1.running = some r → r.cancelled = true) := by
+  simp only [step]
+  split
+  · rename_i hl
+    split
+    · rename_i hf
+      refine ⟨find?_none_no_qid q _ hf, ?_⟩
+      intro r hr
+      simp only [hl] at hr
+      exact absurd hr (by simp)
+    · refine ⟨removeFirstWaiting_clears q _ huniq, ?_⟩
+      intro r hr
+      simp only [hl] at hr
+      exact absurd hr (by simp)
+  · rename_i r0 hl
+    refine ⟨removeFirstWaiting_clears q _ huniq, ?_⟩
+    intro r hr
+    simp only [lookup_put_self, Option.some.injEq] at hr
+    subst hr
+    rw [send_cancelled]
+
 end SigModel.Lemmas.C17
